@@ -208,7 +208,7 @@ def _gen_ops(w, tags, depth, budget, allow_fault_free=True):
                     spec[2] = [x for x in spec[2] if x != a] if a in spec[2] else spec[2] + [a]
                 else:
                     spec[which - 1] = w.pick(COLORS)
-            ops.append(["probe", w.pick(["registered", "added", "single", "single_io", "single_out"]),
+            ops.append(["probe", w.pick(["registered", "added", "single", "single_io", "single_out", "recoloured"]),
                         spec, w.pick(["plain text", "x", "Zeile", "1 < 2", "a <= b > c", "x <not a tag> y"]), w.randrange(4)])
         elif k == "raise":
             ops.append(["raise"])
@@ -572,6 +572,24 @@ def _run_twin(sc, tw, res, count_probes):
                     got = tw.since(mk, "err")
                     if count_probes:
                         res.probe("style_added_later")
+                elif way == "recoloured":
+                    # one Style object: used once, then edited in place (as `style.fg("blue").bold()`
+                    # does), then used again - the second use must show the edited style
+                    first = [spec[1], spec[0], [a for a in ATTRS if a not in spec[2]][:3]]
+                    st = _mk_style(None, first)
+                    tw.fm.format(text, st)
+                    if spec[0]:
+                        st.fg(spec[0])
+                    if spec[1]:
+                        st.bg(spec[1])
+                    for a in ATTRS:
+                        getattr(st, a)(a in spec[2])
+                    got = tw.fm.format(text, st)
+                    spec = [spec[0] or first[0], spec[1] or first[1], spec[2]]
+                    expect = _codes(spec)
+                    way = "single"
+                    if count_probes:
+                        res.probe("style_object_edited_between_uses")
                 else:
                     st = _mk_style(None, spec)
                     if way == "single":
